@@ -19,7 +19,7 @@ func init() {
 	core.RegisterMeta("C28", core.Meta{
 		Rule: "cases = configuration cells (peer zcrypto|Go server x TLS 1.0-1.3 x server key RSA/P-256/P-384/P-521/Ed25519 x cipher suite x curve P-256/384/521/X25519) visited in a seed-shuffled order, " +
 			"each with seed-drawn options (ClientHello built by the library / ExternalClientHello / ClientFingerprintConfiguration, ALPN, SCT list, OCSP staple, ticket resumption, HelloRetryRequest, client auth, " +
-			"untrusted/expired/misnamed leaf, ServerHello rewritten in flight with an extra extension, read segmentation, unbuffered handshakes, DHE via a zcrypto server); every handshake is one evaluation; " +
+			"untrusted/expired/misnamed leaf, the zcrypto-specific client Config switches (ForceSessionTicketExt, SignedCertificateTimestampExt, HeartbeatEnabled, ExtendedRandom, ExtendedMasterSecret, NoOcspStapling, SessionTicketsDisabled, ClientRandom, CompressionMethods, SupportedPoints, SignatureAndHashes, ExplicitCurvePreferences), ServerHello rewritten in flight with an extra extension, read segmentation, unbuffered handshakes, DHE via a zcrypto server); every handshake is one evaluation; " +
 			"non-trivial = the log has ClientHello and ServerHello, the transcript parsed, and at least one populated field was compared; distinct by (peer, negotiated version, suite, group, wire signature bytes, key kind, " +
 			"hello mode, outcome, HRR, ticket offered/issued, CertificateRequest, ALPN/SCT/OCSP/EMS on the wire, rewrite, leaf set, resumed, log sections present)",
 		MinNontrivial:         800,
@@ -30,7 +30,8 @@ func init() {
 			"the tap of internal/netx records exactly the bytes each endpoint received (filters run before the tap)",
 			"wire parser, PRF / key block / Finished / record opening / HKDF are written from the RFCs on Go's hash and cipher primitives and share no code with zcrypto",
 			"Go's crypto/tls server, crypto/rsa, crypto/ecdsa, crypto/ed25519, crypto/ecdh and crypto/x509 are trusted as independent references",
-			"populated = non-zero: a zero-valued log field is never asserted against the wire (counted as unpopulated:<field>); a true boolean asserts its extension",
+			"the ClientHello / ServerHello log structs are populated as a whole: presence flags must equal 'extension on the wire' in both directions and empty lists / strings against a wire value are mismatches (:missing), except the fields of helloLenient in oracle.go (secure_renegotiation, sct_enabled, heartbeat, ServerHello extended_random, ClientHello unknown_extensions: ambiguous meaning or extension unknown to the message parser; counted as unpopulated:<field>)",
+			"outside the hello structs populated = non-zero: a zero-valued field is counted as unpopulated:<field>, not asserted",
 			"for 0x08xx signature schemes the hash may be rendered as intrinsic or as the scheme's hash, the signature as rsa or rsapss; signature.type may name the suite's or the wire's algorithm",
 			"on HelloRetryRequest the single ClientHello / ServerHello slot may hold either exchanged message (counted in hrr_log_records_*)",
 			"a top-level session_ticket without a NewSessionTicket in the same connection may be the ticket offered in the ClientHello",
